@@ -16,7 +16,7 @@ CLAIMS = {
                 "producer invariant, environment raisers) shows that for every peer byte sequence the exception classes escaping "
                 "LAN.send / LAN.authenticate / Device.authenticate / Device._send_command stay inside the allowed sets (a function re-entering "
                 "itself on a peer-selected path is a RecursionError raiser). "
-                "Over-approximates paths (no feasibility reasoning), so 'holds' covers all inputs; library behaviour comes from a frozen model. Whether the transport is closing is peer-decided, and a predicate property that answers under a peer-decided branch gives a peer-decided answer (asserting it is a raiser).",
+                "Over-approximates paths (no feasibility reasoning), so 'holds' covers all inputs; library behaviour comes from a frozen model. Whether the transport is closing is peer-decided, and a predicate property that answers under a peer-decided branch gives a peer-decided answer (asserting it is a raiser). Nothing is stored in LAN._protocol on a path on which the connect fails.",
         "note": TRUST + "library model sa/libmodel.py; unknown library calls on tainted data are assumed benign and listed in the evidence",
         "technique": "taint + length-fact + may-raise effect analysis over the call graph (static analysis)",
     },
@@ -32,7 +32,7 @@ CLAIMS = {
         "text": "De-duplication decided from path conditions (task creation dominated by `source address not in seen set`, address added on "
                 "every creating path, one create_task site, the result built from one gather over every recorded task, nothing removes - or hands out a remover of - recorded tasks; the reported ip is the source address on every path); per-host containment decided by the may-raise analysis "
                 "with the datagram as taint source (escape set of datagram_received and of the per-host coroutine is empty); no shared "
-                "per-host state (who-writes). The protocol cancels none of the tasks it recorded; per-run and shared state are checked by C18 itself.",
+                "per-host state (who-writes). The protocol cancels none of the tasks it recorded; per-run and shared state are checked by C18 itself. The task set is gathered after the listening socket was closed.",
         "note": TRUST + "library model; asyncio.gather re-raises the first task exception; interleavings need no exploration once hosts share no state",
         "technique": "path-condition dominance + taint/may-raise effect analysis + who-writes (static analysis)",
     },
@@ -40,7 +40,7 @@ CLAIMS = {
         "text": "For every path through the capability record loop at once: the cursor advances by exactly 3+size on each back edge "
                 "(affine forms over value-flow terms), every read stays inside its record, the only loop-carried values are the cursor "
                 "and write-only accumulators (the result dict), merge is an in-order dict.update (skipped at most when the other page is empty) and get_capabilities pages/merges/updates in the "
-                "right order; the dict a response fills is not shared with class-level or module-level state. Together: parse(list) = fold of parse(record), independent of the split point. No memoised function hands out response objects and nothing a getter reads is derived from the dict at construction time only. The checksum formula obligation (C12.a) is imported.",
+                "right order; the dict a response fills is not shared with class-level or module-level state. Together: parse(list) = fold of parse(record), independent of the split point. No memoised function hands out response objects and nothing a getter reads is derived from the dict at construction time only. The checksum formula obligation (C12.a) is imported. The supported-property set is rebuilt from the merged response on every fetch (the old contents do not survive).",
         "note": TRUST + "dict.update semantics",
         "technique": "cursor-advance / loop-carried-state analysis on value-flow terms (static analysis)",
     },
@@ -59,7 +59,7 @@ CLAIMS = {
                 "40-byte header, AES-ECB(PKCS7(command)), MD5(everything before ‖ key)); the decoder's ranges, byte order and inverse "
                 "transform agree with it; key/mode/block pairing by constant folding; every emitted byte is interval-bounded; no packet byte is "
                 "left in a buffer the next call reuses (held-buffer mutation on value-flow terms). Holds "
-                "for all frames, ids and timestamps at once because lengths and values are symbolic. What LAN.send writes on a V2 connection is that encoding of the frame it was given, handed unmodified to the transport, and what it returns went through the decoder (pipeline connectivity). The id wrapped is the constructor's device id unmodified, and the V2 receive path frames by the length field (reassembly premises re-run).",
+                "for all frames, ids and timestamps at once because lengths and values are symbolic. What LAN.send writes on a V2 connection is that encoding of the frame it was given, handed unmodified to the transport, and what it returns went through the decoder (pipeline connectivity). The id wrapped is the constructor's device id unmodified, and the V2 receive path frames by the length field (reassembly premises re-run). The codec classes (Security, _Packet) store nothing on themselves: every packet is computed from its arguments and the constants alone.",
         "note": TRUST + "AES-128-ECB / PKCS7 / MD5 implementations",
         "technique": "byte-sequence layout + affine length + interval abstract domains over value-flow terms (static analysis)",
     },
@@ -94,7 +94,7 @@ CLAIMS = {
                 "16 settable fields at once (guard regions for the set-point and half-degree flag are abstract elements); the vendor "
                 "reference decode applied to the abstract 24-byte body returns every source field (left inverse ⇒ distinct states give "
                 "distinct bodies); no bit collisions, no lossy masks, every byte ≤ 255; the def-use chain setter → attribute → apply → command "
-                "attribute passes every requested value unchanged. All 62 set-points × modes × flags are one abstract state. The CLI's ordering obligation (nothing refreshes the device between assignment and apply, C20.e) is imported. Deprecated setting aliases are transparent wrappers, and a setter writes no other field of the requested state. apply() fills the command before it first suspends (a snapshot of the requested state; suspension-point analysis).",
+                "attribute passes every requested value unchanged. All 62 set-points × modes × flags are one abstract state. The CLI's ordering obligation (nothing refreshes the device between assignment and apply, C20.e) is imported. Deprecated setting aliases are transparent wrappers, and a setter writes no other field of the requested state. apply() fills the command before it first suspends (a snapshot of the requested state; suspension-point analysis). apply() stores none of the attributes it encodes.",
         "note": TRUST + "transcription of the vendor layout rows (each cites its Lua line, constants re-read from the Lua)",
         "technique": "abstract interpretation in a bit-field/interval/affine domain with trace partitioning (static analysis)",
     },
@@ -113,7 +113,7 @@ CLAIMS = {
                 "a response, R timeouts ⇒ TimeoutError after exactly R transmissions, every failure exit disconnects first and leaves as "
                 "timeout/protocol error; plus must-pass-through reconnect in send, _disconnect/_connect/_alive/alive/write facts from "
                 "value-flow terms (the wait on the receive queue has a timeout that no handler below the retry loop swallows; no self._protocol.<x> where the path condition, short-circuit operands or every caller's guard leave it possibly None) and the may-raise analysis with environment raisers for connect failures and Device._send_command; the "
-                "reassembly premises of C04 (every response that arrives is delivered) and the session discipline of C07 (re-authentication on V3) are re-run as premises. A handshake is offered only on a connection found alive and V3 or on a fresh one. The credentials are cached in the atomic section in which the handshake succeeded (no cancellation point before the stores).",
+                "reassembly premises of C04 (every response that arrives is delivered) and the session discipline of C07 (re-authentication on V3) are re-run as premises. A handshake is offered only on a connection found alive and V3 or on a fresh one. The credentials are cached in the atomic section in which the handshake succeeded (no cancellation point before the stores). A handshake abandoned by cancellation closes the connection before the cancellation propagates (retry-loop exploration with cancellation as an outcome; defect F9, repaired), and the response to a pending handshake is accepted whatever session state the connection holds.",
         "note": TRUST + "timing relative to the 2 s read timeout and success of the following exchange on a real socket are not decided",
         "technique": "conditional-constant exploration of retry-loop automata + must-pass-through + may-raise effects (static analysis)",
     },
@@ -148,7 +148,7 @@ CLAIMS = {
                 "APP_KEY); bodies carry the stored sessionId and stamp; the login password derivation of both clouds (SmartHome: salted with the login key of the selected server); get_token returns token/key of the "
                 "very element compared equal to the requested udpid, else CloudError; _post_request explored for budgets 1..3 with the HTTP "
                 "client as oracle (attempts ≤ R, every exceptional exit a CloudError); both byte orders tried with the credentials fetched "
-                "for that order's udpid; the cloud client is cached for reuse only after login() completed. Every network failure of Device.authenticate is an AuthenticationError (C06.d), so both byte orders are tried. discover() drops the cloud client of an earlier run unless region, account and password are all compared equal.",
+                "for that order's udpid; the cloud client is cached for reuse only after login() completed. Every network failure of Device.authenticate is an AuthenticationError (C06.d), so both byte orders are tried. discover() drops the cloud client of an earlier run unless region, account and password are all compared equal. Every value the login body's password field can take is this request's derivation from this login's id.",
         "note": TRUST + "acceptance by the real cloud service; JSON/KeyError on malformed server answers are outside the property",
         "technique": "value-flow provenance + retry-loop exploration (static analysis)",
     },
@@ -157,7 +157,7 @@ CLAIMS = {
                 "network call, conversion is reached only for existing writable properties, the stored value's decision tree has exactly the "
                 "documented leaves (enum by value / raw int only for FanSpeed / by upper-cased name, bool via capitalised literal, number via "
                 "the default's type), every writable property has a non-None convertible default, and refresh → pop display → toggle-if-"
-                "different → setattr → apply-if-pending ordering holds; manual connect uses port 6444. No handler or exiting finally between _control and the interpreter replaces its exit status. A catch-all handler in the runner re-raises or exits non-zero; deprecated aliases read the same default. The reassembly premises of C04 are re-run: a display toggle whose reply is lost on the way up would be retransmitted, and a toggle is not idempotent.",
+                "different → setattr → apply-if-pending ordering holds; manual connect uses port 6444. No handler or exiting finally between _control and the interpreter replaces its exit status. A catch-all handler in the runner re-raises or exits non-zero; deprecated aliases read the same default. The reassembly premises of C04 are re-run: a display toggle whose reply is lost on the way up would be retransmitted, and a toggle is not idempotent. apply()'s snapshot obligations (C10.g) are imported.",
         "note": TRUST + "argparse and README prose beyond these clauses; clause (d) is partly idiom-pinned (.upper() / .capitalize()), stated in DESIGN.md",
         "technique": "may/must event (dominance) analysis + value-flow decision-tree extraction + inventory (static analysis)",
     },
